@@ -29,7 +29,7 @@ pub fn run(run: &mut Run) {
         for i in my_cases(rc, STREAM, n, w, nw) {
             guarded(acc, "c02", STREAM, i, |acc| {
                 let mut r = Rng::derive(seed, STREAM, i);
-                let shape = r.usize(6);
+                let shape = r.usize(crate::shapes::N_SHAPES);
                 with_shape!(shape, case(&mut r, acc, i, verbose));
             });
         }
